@@ -12,15 +12,19 @@ Definition Qcabs (x : Qc) : Qc := if Qcltb x 0 then - x else x.
 (* |a - b| <= 1e-9 * (1 + |b|) *)
 Definition close (a b : Qc) : bool :=
   Qcleb (Qcabs (a - b)) (q 1 1000000000 * (1 + Qcabs b)).
+(* 'Exact' cases use dyadic data on which binary64 arithmetic is exact; the comparison nevertheless allows one part in 10^12
+   so that a last-bit rounding somewhere in pandas can never be reported as a violation (step POINTS are compared exactly) *)
+Definition close12 (a b : Qc) : bool :=
+  Qcleb (Qcabs (a - b)) (q 1 1000000000000 * (1 + Qcabs b)).
 Definition v_cmp (m : cmpmode) (a b : V) : bool :=
   match m, a, b with
   | _, None, None => true
-  | Exact, Some x, Some y => Qceqb x y
+  | Exact, Some x, Some y => close12 x y
   | Tol, Some x, Some y => close x y
   | _, _, _ => false
   end.
 Definition q_cmp (m : cmpmode) (a b : Qc) : bool :=
-  match m with Exact => Qceqb a b | Tol => close a b end.
+  match m with Exact => close12 a b | Tol => close a b end.
 
 Definition list_cmp {A} (f : A -> A -> bool) (a b : list A) : bool :=
   Nat.eqb (length a) (length b) && forallb (fun ab => f (fst ab) (snd ab)) (combine a b).
